@@ -270,9 +270,10 @@ func headerString(f *Func) string {
 		fmt.Fprintf(buf, " partition %s", quote(f.Partition))
 	}
 	if f.Comdat != nil {
-		// The comdat name is omitted when it is the name of the global; an
+		// The comdat name is omitted when it is the name of the global (the name
+		// itself, not the quoted spelling Name returns for a numeric name); an
 		// unnamed global has no name to stand in for it.
-		if !f.IsUnnamed() && f.Comdat.Name == f.Name() {
+		if !f.IsUnnamed() && f.Comdat.Name == f.GlobalName {
 			buf.WriteString(" comdat")
 		} else {
 			fmt.Fprintf(buf, " %s", f.Comdat)
